@@ -310,7 +310,8 @@ SPEC = {
                       'vectors as Examples) are the primitives of the specification; their correctness is by vectors and by the '
                       'differential runs against the md-5, sha2, aes crates, not by proof',
                       'C06: password preparation (PDFDocEncoding / SASLprep) is an oracle; the cases use printable-ASCII passwords'],
-    'partial_note': 'primitive correctness by published vectors + differential runs, not by proof; password preparation is an oracle',
+    'partial_note': 'MD5/SHA-2/RC4 correctness by published vectors + differential runs, not by proof (AES inverse and MD5 size proved; '
+                    'SHA-2 output sizes assumed by the R5/R6 document theorems); password preparation is an oracle',
     'impl_timeout': 1200,
     'model_timeout': 1500,
     'model_shards': 8,      # vlib shards only when there are >= 4 lines per shard
@@ -324,22 +325,24 @@ def run(ctx):
 MANIFEST = {
     'level_text': 'Machine-checked refinement proofs (Coq) between the executable model of lopdf\'s standard security handler '
                   '(written from the Rust source) and an independent transcription of ISO 32000-1/-2 7.6 in the standard\'s own '
-                  'formulation (Algorithms 1, 1.A, 2, 2.A, 2.B, 3-13, crypt filter selection, the rule saying what is encrypted): '
-                  'algorithm by algorithm lopdf computes what the standard defines (keys, O, U, OE, UE, Perms, per-object keys, '
-                  'ciphertexts), every difference in formulation being a lemma (byte sum vs big-endian value mod 3, padding, '
-                  'P rebuilt from bit flags for conforming words, loop shapes of 2.B, counters 19..0, CBC over blocks); every '
-                  'indirect object is written by lopdf exactly as by the standard\'s writer, strings or streams written by either '
-                  'side are decrypted by the other, objects written by the standard\'s writer are decrypted by lopdf.  The '
+                  'formulation (Algorithms 1, 1.A, 2, 2.A, 2.B, 3-13, crypt filter selection incl. EFF and DecodeParms arrays, the '
+                  'rule saying what is encrypted): algorithm by algorithm lopdf computes what the standard defines (keys, O, U, OE, '
+                  'UE, Perms, per-object keys, ciphertexts), every difference in formulation being a lemma; Algorithm 13 / 2.A in '
+                  'both directions on every Perms a conforming writer can produce.  Both interoperability statements of the '
+                  'property are theorems for revisions 2-6, general in the document, the request, the random choices and the '
+                  'position of the encryption dictionary (indirect or direct): a document encrypted by the standard\'s writer is '
+                  'opened by Document::decrypt, a document encrypted by try_from + Document::encrypt is opened by the standard\'s '
+                  'reader, user and owner password, plaintext recovered (composed from the algorithm-level refinements, the '
+                  'standard\'s own consistency, the object-level theorems and the dictionary / trailer / object-map glue).  The '
                   'EXTRACTED specification is the independent implementation: on every generated case lopdf opens what it '
                   'encrypted, it opens what lopdf encrypted, and it reproduces lopdf\'s output byte for byte from the random '
                   'choices read back (V1, V2 40..128, V4 RC4/AESV2/None, R5, R6).',
-    'level_note': 'Partial: primitive correctness (MD5, SHA-2, AES, RC4 in Gallina) is by published vectors and differential runs '
-                  'against the crates, not by proof; AES decryption inverting encryption is a hypothesis; password preparation '
-                  '(PDFDocEncoding/SASLprep) is an oracle (ASCII passwords); the specification reader\'s own object/document '
-                  'round trip and the document-level composition are computed/sampled, not proved; Algorithm 13 / 2.A are '
-                  'one-directional (lopdf accepts what the standard accepts). No open known finding (EFF, DecodeParms arrays '
-                  'and the direct encryption dictionary are fixed). Trusted: Coq kernel, translator part Crypto, extraction. '
-                  'No axioms.',
+    'level_note': 'Partial: MD5, SHA-2, RC4 against their standards by published vectors and differential runs, not by proof (AES '
+                  'decryption inverting encryption IS proved for the Gallina AES; MD5 output size proved); the R5/R6 document '
+                  'theorems assume the SHA-2 output sizes; an owner (R2-4) / user (R5/6) password that also passes the other '
+                  'check is excluded (cryptographic); password preparation (PDFDocEncoding/SASLprep) is an oracle (ASCII '
+                  'passwords). No open known finding (EFF, DecodeParms arrays, direct encryption dictionary fixed in /repo). '
+                  'Trusted: Coq kernel, translator part Crypto, extraction. No axioms.',
     'technique': 'Coq refinement proofs model-vs-standard + extracted specification as independent implementation in a two-way '
                  'differential check + direct property evaluation on the crate',
     'design_ref': 'DESIGN.md 6 C06',
